@@ -3,58 +3,58 @@
 // harness-file: frame.rs
 // harness: c06_frame_parse_vs_reference_20
 // config: 
-// failed-check: fatal errors only for streams that cannot become valid @ ../vh/frame.rs:106:13 in function frame::verif_kani::parse_vs_reference::<20>
-// native-result: /var/tmp/rdest-verif.C06.2624/cfg-default/vh/frame.rs:106:13: fatal errors only for streams that cannot become valid
+// failed-check: This is a placeholder message; Kani doesn't support message formatted at runtime @ ../../../../../home/runner/.rustup/toolchains/nightly-2026-08-21-x86_64-unknown-linux-gnu/lib/rustlib/src/rust/library/core/src/slice/index.rs:50:9 in function core::slice::index::slice_index_fail::do_panic::runtime
+// native-result: src/messages/request.rs:50:52: range end index 17 out of range for slice of length 16
 // rerun: cd /verif && ./check C06 --replay /verif/evidence/replay/C06-c06_frame_parse_vs_reference_20.rs
 /// Test generated for harness `frame::verif_kani::c06_frame_parse_vs_reference_20` 
 ///
-/// Check for `assertion`: ""fatal errors only for streams that cannot become valid""
+/// Check for `assertion`: "This is a placeholder message; Kani doesn't support message formatted at runtime"
 
 #[test]
-fn kani_concrete_playback_c06_frame_parse_vs_reference_20_8296427078805833737() {
+fn kani_concrete_playback_c06_frame_parse_vs_reference_20_10641739253935258083() {
     let concrete_vals: Vec<Vec<u8>> = vec![
         // 0
         vec![0],
-        // 1
-        vec![1],
         // 0
         vec![0],
         // 0
         vec![0],
-        // 16
-        vec![16],
-        // 255
-        vec![255],
-        // 255
-        vec![255],
-        // 255
-        vec![255],
-        // 255
-        vec![255],
-        // 255
-        vec![255],
-        // 255
-        vec![255],
-        // 255
-        vec![255],
-        // 255
-        vec![255],
-        // 255
-        vec![255],
-        // 255
-        vec![255],
-        // 255
-        vec![255],
-        // 255
-        vec![255],
+        // 13
+        vec![13],
+        // 6
+        vec![6],
+        // 111
+        vec![111],
+        // 114
+        vec![114],
+        // 114
+        vec![114],
+        // 101
+        vec![101],
+        // 0
+        vec![0],
+        // 0
+        vec![0],
+        // 0
+        vec![0],
+        // 0
+        vec![0],
+        // 0
+        vec![0],
+        // 0
+        vec![0],
+        // 0
+        vec![0],
+        // 0
+        vec![0],
         // 99
         vec![99],
+        // 111
+        vec![111],
         // 255
         vec![255],
-        // 108
-        vec![108],
-        // 8ul
-        vec![8, 0, 0, 0, 0, 0, 0, 0],
+        // 16ul
+        vec![16, 0, 0, 0, 0, 0, 0, 0],
     ];
     kani::concrete_playback_run(concrete_vals, c06_frame_parse_vs_reference_20);
 }
